@@ -165,66 +165,130 @@ def P(pid, clauses, not_decided_short, rules, not_decided):
 
 
 PROPS = {
-    "C01": P("C01", "no panic site is reachable from any add/sub/neg form or operator (R-TOTAL)",
-             "that the carry chain computes the sum", rules_with_canon("C01", {"src/add.rs"}, flag_for({"src/add.rs"}, ["add", "sub", "neg"])),
+    "C01": P("C01", "(a) no panic site reachable from any add/sub/neg form, operator shape or Sum (R-TOTAL); (b) every "
+             "returned value is canonical on every path in every non-aligned configuration (R-CANON typestate); (c) the "
+             "carry/borrow of each carrying_add/borrowing_sub and the `> MASK` comparison both reach the returned flag, no "
+             "overflow indicator is dropped (R-FLAG); (d) each checked_/saturating_/wrapping_/overflowing_ variant reaches "
+             "the kernel of its own operation only and saturates to the right bound (R-VARIANT)",
+             "that the limb-wise carry chain computes the sum (e.g. seeded C01-carrying_add-compare is missed)",
+             rules_with_canon("C01", {"src/add.rs"}, flag_for({"src/add.rs"}, ["add", "sub", "neg"])),
              ["that the limb-wise carry chain computes the sum/difference", "abs_diff's value"]),
-    "C02": P("C02", "no panic site is reachable from any mul form, inv_ring, Product (R-TOTAL)",
-             "products, Hensel lifting", rules_with_canon("C02", {"src/mul.rs"}, flag_for({"src/mul.rs", "src/algorithms/mul.rs"}, ["mul"])), ["products", "trimming bookkeeping in addmul"]),
-    "C03": P("C03", "checked_div/checked_rem/checked_next_multiple_of reach the zero-divisor panic only behind a "
-             "dominating non-zero test (R-TOTAL, D-zero); no todo!/unimplemented! is reachable from a public item "
-             "(R-UNIMPL)", "the Euclidean contract; that no non-zero divisor panics inside the Knuth kernels",
-             rules_C03, ["the Euclidean contract", "no non-zero divisor panics (kernel indices are run-time values)"]),
-    "C04": P("C04", "every producer of a Uint forces the LIMBS assertion (R-LIMBS)",
-             "that cmp scans most-significant first, kernel value claims", rules_C04,
+    "C02": P("C02", "(a) no undischarged panic site under any mul form, inv_ring, Product (R-TOTAL; widening_mul's two "
+             "assert_eq! are documented); (b) results canonical on every path, incl. inv_ring for single-limb widths "
+             "(R-CANON); (c) addmul's return and the `> MASK` comparison reach overflowing_mul's flag, addmul's own "
+             "carries reach its overflow (R-FLAG); (d) variants reach the mul kernels only (R-VARIANT)",
+             "products, addmul's truncation bookkeeping (seeded C02-addmul-truncated-row-flag is missed), Hensel lifting",
+             rules_with_canon("C02", {"src/mul.rs"}, flag_for({"src/mul.rs", "src/algorithms/mul.rs"}, ["mul"])),
+             ["products", "trimming / truncation bookkeeping in addmul", "Hensel lifting"]),
+    "C03": P("C03", "(a) checked_div/checked_rem/checked_next_multiple_of and their num-traits facades reach the 'Divisor "
+             "is zero' site only behind a dominating non-zero test of that call's divisor (R-TOTAL, D-zero predicate "
+             "propagated through div_rem/wrapping_div/Div); (b) div_rem, wrapping_div/rem, div_ceil call the kernel on every "
+             "path to every return, so a zero divisor reaches the documented panic (R-GUARD/zero-divisor); (c) no todo!/"
+             "unimplemented! is reachable from any public item of the crate (R-UNIMPL)",
+             "the Euclidean contract; that no non-zero divisor panics inside the Knuth kernels (C14, not applicable)",
+             rules_C03, ["the Euclidean contract", "no non-zero divisor panics (kernel indices are run-time values)",
+                         "values of div_ceil / next_multiple_of"]),
+    "C04": P("C04", "(i) every public constant/function that can bring a Uint/Bits into existence reaches a body that "
+             "evaluates Uint::LIMBS for its own (BITS, LIMBS), with delegation through generic dispatch discharged by "
+             "induction over local candidate impls (R-LIMBS, both rand configurations) and confirmed by 76 compile-fail "
+             "witnesses with compiling twins (R-WITNESS); (ii) every function that writes limb storage re-establishes "
+             "limbs[LIMBS-1] <= MASK on every path to every exit in 11 non-aligned configurations, and no non-canonical "
+             "value is passed on except to a verified sanitiser (R-CANON; 11 reviewed rows, 7 with machine-checked side "
+             "conditions); (iii) the limb field is private and only unsafe fns hand out mutable storage (R-MUTREF); concrete "
+             "pairs in aliases/impl headers are well-formed, Pod impls only for BITS = 64*LIMBS, no generic constructor-"
+             "providing marker impl (R-WF; open known finding: bytemuck::Zeroable); Eq/Hash derived, Ord::cmp = "
+             "algorithms::cmp(self, rhs), partial_cmp = Some(cmp) (R-EQORD); MASK used as a bit mask only (R-MASKKIND). "
+             "(i)-(iii) are an inductive argument for closure of the canonical set under every operation",
+             "that cmp scans most-significant first, kernel value claims (q <= n, r < d, shr monotone: trusted rows)",
+             rules_C04,
              ["that algorithms::cmp orders limbs most-significant first",
-              "value claims of the arithmetic kernels (quotient <= numerator, remainder < divisor)"]),
-    "C05": P("C05", "no shift/rotate form or operator overload reaches a panic site; every limb index in "
-             "overflowing_shl/shr is in range by the `limbs >= LIMBS` guard (R-TOTAL)",
-             "bit positions, rotation arithmetic, sign fill", rules_C05,
-             ["bit positions", "rotation arithmetic", "sign fill"]),
-    "C06": P("C06", "bit/set_bit/checked_byte/count functions reach no panic site; index guards dominate the limb "
-             "accesses (R-TOTAL)", "every counting function's value", rules_with_canon("C06", {"src/bits.rs"}, lambda ctx: [guard.byte_panics(ctx)]),
-             ["values of the counting functions", "most_significant_bits"]),
-    "C07": P("C07", "every TryFrom/wrapping/saturating conversion in either direction and the *_from_limbs_slice "
+              "value claims of the arithmetic kernels behind the trusted R-CANON rows"]),
+    "C05": P("C05", "(a) no shift/rotate form or operator overload (88 integer-typed + 8 Uint-typed shapes) reaches a "
+             "panic site; every limb index in overflowing_shl/shr is in range by the `limbs >= LIMBS` guard (R-TOTAL with "
+             "relational interval facts); (b) results canonical (R-CANON); (c) the flag of overflowing_shl depends on a "
+             "comparison with MASK and, for both directions, on reads of self outside the shifted window (R-FLAG mask-/"
+             "window-discard); (d) a Uint-typed shift amount is never used through its low limb without a whole-value "
+             "check (R-LOWLIMB); (e) variants reach overflowing_shl resp. overflowing_shr only (R-VARIANT)",
+             "bit positions, rotation arithmetic, sign fill; exactness of the flag beyond the structural clauses (seeded "
+             "C05-shr-flag-trailing_zeros is missed)", rules_C05,
+             ["bit positions", "rotation arithmetic", "sign fill", "exactness of the lost-bit flag"]),
+    "C06": P("C06", "(a) bit/set_bit/checked_byte/counting functions reach no undischarged panic site, index guards "
+             "dominate the limb accesses (R-TOTAL); (b) not/bit-ops/set_bit keep values canonical (R-CANON rows with "
+             "guard / callee-identity side conditions); (c) Uint::byte panics exactly for index >= BYTES in every "
+             "configuration (R-GUARD/byte)", "every counting function's value, most_significant_bits",
+             rules_with_canon("C06", {"src/bits.rs"}, lambda ctx: [guard.byte_panics(ctx)]),
+             ["values of the counting functions", "most_significant_bits", "reverse_bits"]),
+    "C07": P("C07", "(a) every TryFrom/wrapping/saturating conversion in either direction and the *_from_limbs_slice "
              "constructors reach no undischarged panic site: each asserting from_limbs is behind a top-limb bound "
-             "(R-TOTAL, D-mask)", "that wrapped payloads equal v mod 2^BITS", rules_C07,
-             ["wrapped payload values"]),
-    "C08": P("C08", "try_from_{be,le}_slice, checked_copy_* and the slice/vec byte forms reach no undischarged panic "
-             "site in any configuration, in particular the asserting from_limbs only behind a top-limb check (R-TOTAL)",
-             "digit order, round trip", rules_C08, ["digit order inside the loops", "round trip"]),
-    "C09": P("C09", "from_str/from_str_radix/from_base_* and the formatters reach no undischarged panic site (R-TOTAL)",
-             "Horner/spigot arithmetic, padding output", rules_C09,
+             "(R-TOTAL, callee-guard refutation); (b) MASK is never an operand of % / + - * (R-MASKKIND); (c) low-limb "
+             "reads of a Uint are dominated by a bit_len check (R-LOWLIMB); (d) wrapping_to/saturating_to project the "
+             "wrapped resp. maximum payload, saturating_from maps error kinds to MAX/ZERO (R-VARIANT); (e) TryFrom<u64> "
+             "errs exactly on `value > MASK` under LIMBS <= 1, signed conversions produce ValueNegative exactly on "
+             "is_negative (R-GUARD); (f) the slice constructor can report overflow in every configuration incl. BITS = 0 "
+             "(R-FLAG/feasible-failure)", "that wrapped payloads equal v mod 2^BITS", rules_C07, ["wrapped payload values"]),
+    "C08": P("C08", "(a) try_from_{be,le}_slice, checked_copy_* and the slice/vec byte forms reach no undischarged panic "
+             "site in any configuration, the asserting from_limbs only behind a top-limb check (R-TOTAL); (b) byte-form "
+             "writers keep values canonical (R-CANON); (c) checked_copy_* touch the buffer only behind the length guard "
+             "(R-GUARD/buffers); (d) the slice parsers can fail in every configuration (R-FLAG/feasible-failure)",
+             "digit order inside the loops, trimmed lengths (seeded C08-trimmed-length-arithmetic is reported only "
+             "incidentally), round trip", rules_C08, ["digit order inside the loops", "trimmed lengths", "round trip"]),
+    "C09": P("C09", "(a) the char->digit map of from_str_radix equals the documented alphabets on every cell of the "
+             "partition of the whole char domain (exact abstract evaluation, 56 cells) and its image is exactly [0,36) "
+             "resp. [0,64); prefix table {0x,0X,0o,0O,0b,0B} and formatter PREFIX/MAX/WIDTH constants agree (R-TABLE); "
+             "(b) parsers and formatters reach no undischarged panic site (R-TOTAL); (c) from_base_* keep the carry and the "
+             "`> MASK` test in the Overflow path and return canonical values (R-FLAG, R-CANON), and can fail in every "
+             "configuration", "Horner/spigot arithmetic, padding and alignment output", rules_C09,
              ["Horner/spigot arithmetic", "padding and alignment output"]),
-    "C10": P("C10", "reduce_mod/add_mod/mul_mod/pow_mod/inv_mod reach the zero-divisor panic only behind a dominating "
-             "non-zero test of the modulus (R-TOTAL, D-zero)", "residues, pow_mod, inv_mod cofactor sign",
+    "C10": P("C10", "(a) reduce_mod/mul_mod/pow_mod return ZERO on the zero-modulus edge and reach the division kernel "
+             "only behind it (R-GUARD/zero-divisor, R-TOTAL D-zero); (b) add_mod uses the overflow indicator (R-FLAG); "
+             "(c) results canonical with reviewed rows for the kernel post-conditions (R-CANON)",
+             "residues, pow_mod's exponent loop (seeded C10-pow_mod-skips-zero-limbs is missed), inv_mod cofactor sign",
              rules_C10, ["residues", "pow_mod", "inv_mod cofactor sign"]),
-    "C13": P("C13", "checked_log*/checked_pow and the pow family reach no undischarged panic site at any width, "
-             "including BITS < 4 where the constants 2 and 10 do not fit (R-TOTAL, D-lit, return-discriminant "
-             "summaries)", "values, termination of root, float estimates", rules_C13,
-             ["values", "termination of root", "float estimates inside log"]),
-    "C16": P("C16", "encoders, length and size-hint functions reach no undischarged panic site (R-TOTAL)",
-             "round trip, byte-exact reference encodings, size-hint arithmetic", rules_C16,
+    "C13": P("C13", "(a) checked_log/checked_log2/checked_log10/checked_pow and the pow family reach no undischarged "
+             "panic site at any width, including BITS < 4 where the constants 2 and 10 do not fit (R-TOTAL with D-lit and "
+             "return-discriminant summaries; log's documented preconditions are exported as predicates and verified at "
+             "checked_log's call); (b) both overflowing_mul indicators of overflowing_pow reach its flag (R-FLAG); (c) pow "
+             "variants reach the mul kernels, saturating_pow -> MAX (R-VARIANT)",
+             "values, the square-and-multiply loop (seeded C13-pow-limbwise-exponent is missed), termination of root, float "
+             "estimates inside log (trusted rows)", rules_C13, ["values", "termination of root", "float estimates inside log"]),
+    "C16": P("C16", "(a) per integration (13 encoder/decoder pairs) both sides use Uint byte-form functions of the byte "
+             "order the format defines and agree; SSZ length reporters evaluate to BYTES in every configuration; postgres "
+             "accepts/to_sql/from_sql handle the same 17 column types (R-CODEC); (b) concrete pairs in Pod/ark/primitive-"
+             "types impls are well-formed (R-WF); (c) encoders and length/size-hint functions reach no undischarged panic "
+             "site (R-TOTAL)", "round trip, byte-exact reference encodings (seeded C16-postgres-numeric-weight is missed), "
+             "size-hint arithmetic (F16)", rules_C16,
              ["round trip", "reference encodings", "size-hint arithmetic (F16: scale CompactRefUint::size_hint)"]),
-    "C17": P("C17", "every decoder entry point (serde, rlp, alloy-rlp, fastrlp, SCALE, SSZ, borsh, DER, postgres, "
-             "num-bigint, sqlx, diesel, pyo3, bn-rs, byte-slice and string parsers) reaches no undischarged panic site "
-             "in any configuration: panic-site inventory of the call-graph closure with guard-dominance discharge "
-             "(R-TOTAL)", "that the returned value is the one the input denotes; termination",
-             rules_C17, ["that the returned value is the one the input denotes", "termination"]),
-    "C18": P("C18", "float<->Uint conversions reach no undischarged panic site (R-TOTAL)",
-             "rounding, neighbour and monotonicity claims", rules_C18,
-             ["rounding direction", "neighbour/monotonicity of Uint->float"]),
-    "C19": P("C19", "a grid of uint! witness programs builds or is rejected as the property demands (value 2^bits "
-             "rejected and 2^bits-1 accepted for nine widths and both suffixes, invalid digits incl. a digit equal to the "
-             "base, pass-through of ordinary and hex-ending-in-B literals, nesting, compile-time value assertions), each "
-             "failing witness with a compiling twin (R-WITNESS); on the macro's MIR: the digit range check rejects "
-             "digit == base, every Err reaches compile_error!, Ok(None) returns the literal, groups recurse, the "
-             "constructor emitted is the asserting from_limbs (R-MACRO)",
-             "that the constant's value equals run-time parsing for all literals (finite witness set, not a proof over "
-             "all programs)", rules_C19,
-             ["value equality with run-time parsing beyond the const-assert witnesses", "all programs (finite grid)"]),
-    "C20": P("C20", "no facade function (Bits wrapper, num-traits, num-integer, subtle, zeroize) contains a panic "
-             "source of its own beyond the reviewed rows where its signature cannot express the failure (R-TOTAL, "
-             "own sites only)", "that the inherent method is right; constant-time-ness",
+    "C17": P("C17", "(a) every decoder entry point (serde, rlp, alloy-rlp, fastrlp 0.3/0.4, SCALE fixed+compact, SSZ, "
+             "borsh, DER incl. 9 TryFrom impls, postgres, num-bigint, sqlx, diesel, pyo3, bn-rs, byte-slice and string "
+             "parsers: 50 entries) reaches no undischarged panic site in any of 16 (quick) / 70 (thorough) configurations: "
+             "panic-site inventory of the call-graph closure, discharge by interval abstract interpretation, guard "
+             "refutation across calls and 25 reviewed rows (R-TOTAL); (b) each canonical decoder constructs its documented "
+             "error kinds, and in the three RLP decoders every path to try_from_be_slice passes the leading-zero test "
+             "(R-GUARD/decoders)", "that the returned value is the one the input denotes; termination; debug-only "
+             "arithmetic overflow", rules_C17,
+             ["that the returned value is the one the input denotes", "termination", "debug-only arithmetic overflow"]),
+    "C18": P("C18", "(a) float->Uint: the value reaches to_bits through no rounding float operation; NotANumber exactly "
+             "on the is_nan edge which dominates every float comparison; ValueNegative exactly under value < 0.0; f32 "
+             "forwards through the exact widening cast (R-FLOAT); (b) Uint->float is one multiplication of the cast "
+             "mantissa by a factor derived from the exponent only; (c) no undischarged panic site (R-TOTAL)",
+             "rounding direction, the value of the power-of-two factor (seeded C18-exp2-bit-pattern is missed), neighbour/"
+             "monotonicity", rules_C18, ["rounding direction", "neighbour/monotonicity of Uint->float"]),
+    "C19": P("C19", "(a) a generated grid of uint! witness programs builds or is rejected as the property demands: 2^bits "
+             "rejected / 2^bits-1 accepted for nine widths and both suffixes and on the multi-limb boundary for every "
+             "base, invalid digits incl. a digit equal to the base, pass-through of ordinary and hex-ending-in-B literals, "
+             "nesting, and compile-time limb assertions for 4 bases x 8 widths x ~9 values, each failing witness with a "
+             "compiling twin (R-WITNESS); (b) on the macro's MIR: the digit range check rejects digit == base, every Err "
+             "reaches compile_error!, Ok(None) returns the literal, groups recurse, pad_limbs keeps the length and mask "
+             "tests, the constructor emitted is the asserting from_limbs (R-MACRO)",
+             "all programs (finite witness grid, not a proof over all literals)", rules_C19,
+             ["value equality with run-time parsing outside the witness grid", "all programs"]),
+    "C20": P("C20", "(a) each of 291 facade functions (operator impls in all shapes, Bits wrapper, num-traits, "
+             "num-integer, Sum/Product, Zeroize) forwards to the delegate the oracle table names: resolved delegate "
+             "identity, argument provenance parameter i -> argument i (commutative swaps allowed only for commutative "
+             "operations), no self-recursion, result returned through wrappers only (R-FACADE); (b) subtle ct_gt/ct_lt/"
+             "ct_eq/conditional_select use the primitive of their own direction on limbs zipped from (self, rhs) in that "
+             "order (R-SIBLING); (c) no facade has a panic source of its own beyond reviewed rows where its signature "
+             "cannot express the failure (R-TOTAL, own sites)", "that the inherent method is right; constant-time-ness",
              rules_C20, ["that the inherent methods are right", "constant-time-ness"]),
 }
 
